@@ -96,7 +96,7 @@ func (w *World) redundantAtSite(si *siteInfo, field string, reads map[string]boo
 
 func ruleC02R1(w *World, r *Report) {
 	const rule = "C02/R1"
-	r.rule(rule, "every field of a node type that can receive information at some allocation site (child node, non-empty list, a value with more than one possibility) is read by the type's SQL() method, unless it duplicates a printed field", 400)
+	r.rule(rule, "every field of a node type that can receive information at some allocation site (child node, non-empty list, a value with more than one possibility) is read by the type's SQL() method, unless it duplicates a printed field", 200)
 	v := w.Value()
 	cat := w.Catalog()
 	bySite := map[string][]*siteInfo{}
@@ -190,7 +190,7 @@ var documentedNoise = map[string]bool{"INNER": true, "OUTER": true, "INTO": true
 
 func ruleC02R2(w *World, r *Report) {
 	const rule = "C02/R2"
-	r.rule(rule, "an optional token that is consumed under a kind guard and leaves no trace (no store, no allocation, no value that differs at the merge point) is one of the documented canonicalisations: INNER, OUTER, INTO, DELETE's FROM, an optional or trailing comma", 5)
+	r.rule(rule, "an optional token that is consumed under a kind guard and leaves no trace (no store, no allocation, no value that differs at the merge point) is one of the documented canonicalisations: INNER, OUTER, INTO, DELETE's FROM, an optional or trailing comma", 3)
 	tk := w.TKAI()
 	for _, fn := range w.ModFns {
 		if !w.isParserFunc(fn) || w.isRecoveryHandler(fn) || !tk.touchesLexer(fn) {
@@ -348,7 +348,7 @@ func reachSet(b *ssa.BasicBlock) map[*ssa.BasicBlock]bool {
 
 func ruleC02R3(w *World, r *Report) {
 	const rule = "C02/R3"
-	r.rule(rule, "a position field that is InvalidPos in some cases and a real position in others is read by SQL(), unless another field that SQL() reads is definitely different between the two cases", 20)
+	r.rule(rule, "a position field that is InvalidPos in some cases and a real position in others is read by SQL(), unless another field that SQL() reads is definitely different between the two cases", 10)
 	cat := w.Catalog()
 	bySite := map[string][]*siteInfo{}
 	for _, si := range w.sites() {
@@ -820,7 +820,7 @@ func ruleC02R5(w *World, r *Report) {
 // the kind that was tested there, or the user's ASC comes back as DESC — which round-trips perfectly.
 func ruleC02R6(w *World, r *Report) {
 	const rule = "C02/R6"
-	r.rule(rule, "a constant of a string-based enumeration type of package ast that the parser chooses in a block reached only under a test of the current token's kind (a case of a switch, `if Kind == K`) contains, as a word, one of the kinds tested there — or, when the test is a pseudo-keyword test, that pseudo-keyword; exceptions are the documented canonicalisations ('<>' is recorded as '!=')", 12)
+	r.rule(rule, "a constant of a string-based enumeration type of package ast that the parser chooses in a block reached only under a test of the current token's kind (a case of a switch, `if Kind == K`) contains, as a word, one of the kinds tested there — or, when the test is a pseudo-keyword test, that pseudo-keyword; exceptions are the documented canonicalisations ('<>' is recorded as '!=')", 6)
 	tk := w.TKAI()
 	canon := map[string]string{"<>": "!="}
 	n := 0
@@ -899,7 +899,7 @@ func ruleC02R6(w *World, r *Report) {
 			}
 		}
 	}
-	if n < 12 {
+	if n < 6 {
 		r.errorf("only %d enumeration constants chosen under a kind test found", n)
 	}
 }
